@@ -15,30 +15,31 @@ CHECKS = {
         engine='svm+model', technique='differential runtime monitoring: committed SVM event stream of real compiler output vs reference interpreter (M-DIFF) on generated programs',
         text='Exploration: held on every generated sequential program x args x word size {2,3,4,8} x generous/tight stack that '
              'was executed (hundreds per quick run, thousands per thorough run), plus the 40 sequential upstream expectations. '
+             'Enumerated idiom grids (scoping, operand survival, value capture for every scalar type, narrowing, coinciding tables, fresh literals, entry-point signatures) run on every quick run. '
              'Decided by observing executions of the real emitted assembly; says nothing about program shapes the generator cannot build.',
         note=ISA + '; ' + MODEL, ref='6 (C01), 3, 4'),
     'C02': dict(
         engine='svm+model', technique='differential runtime monitoring: committed SVM event stream vs replay-DFS reference interpreter (M-DIFF) on generated try-block histories; M-BAL at stop handlers',
         text='Exploration: held on every generated history of try/undo/stop blocks, preempts (try bodies and defeat functions), '
              '?? and protected returns that was executed (word sizes 2,3,4, checked and unchecked), plus the 12 time-travel upstream '
-             'expectations. Bounded by the replay budget (3000 replays per run) and the program shapes of the generator.',
+             'expectations. Enumerated grids: ?? operand kinds x positions, preempt placement / return expressions, all ordered pairs of try blocks by kind and defeat source, try-in-loop exit routes. Bounded by the replay budget (3000 replays per run) and the program shapes of the generator.',
         note=ISA + '; ' + MODEL + '; source-level time-travel model of DESIGN.md 3.2', ref='6 (C02), 3.2'),
     'C03': dict(
         engine='svm', technique='runtime monitor M-HALT on the SVM: a halt executed with an empty choice stack (committed halt), traps, events after a terminal flag',
         text='Exploration: no committed halt on any executed run of the defeat-placement enumeration (24 constructs x 7 wrappers x 2 try kinds x '
              '4 exit routes x 3 following tries, 6 inputs), of random sequential/time-travel programs at word sizes 2,3,4 (checked, and unchecked '
-             'when fault-free) and of examples/*.hid. No reference model is involved.',
+             'when fault-free) and of examples/*.hid. Also exit-shape programs followed by a never-called defeat function and every library routine on empty/long operands. No reference model is involved.',
         note=ISA, ref='6 (C03), 2.2'),
     'C15': dict(
         engine='svm', technique='build-vs-build differential monitoring on the SVM: checked and unchecked timelines of the same program; guard-site execution counter',
         text='Exploration: for every generated program/input/word size whose checked run carried no fault flag, the unchecked build produced the '
-             'identical committed timeline and executed no guard site. No reference model is involved.',
+             'identical committed timeline and executed no guard site. A third of the pairs and all memory templates are compared again at the smallest stacks at which the checked build explores no fault on any timeline; a program whose checked build runs fault-free must have an unchecked build. No reference model is involved.',
         note=ISA, ref='6 (C15)'),
     'C18': dict(
         engine='svm+model', technique='metamorphic runtime monitoring: byte-identity of emitted assembly across processes/hash seeds; SVM timeline identity across stack sizes, word sizes and --lint',
         text='Exploration: byte-identical output for every (source, options) compiled twice in-process and under 6 hash seeds in fresh interpreters; '
              'identical timelines on a stack ladder above the first non-overflowing size and at word sizes 2,3,4,8 when the model saw no value leave '
-             '16 bits; --lint rejected or left the code unchanged.',
+             '16 bits; --lint rejected or left the code unchanged. Two of the fresh interpreters run under python -O and -OO; an enumerated lint grid (non-falling-through statement x dead statement x place).',
         note=ISA + '; the premise "values fit 16 bits" is decided by RefInt', ref='6 (C18)'),
     'C04': dict(
         engine='svm', technique='sanitizer-style runtime monitor M-SAN (shadow classification of every load/store against live ap/fp and allocated array extents) under a stack-size sweep; prefix-or-overflow outcome rule',
@@ -60,7 +61,7 @@ CHECKS = {
     'C16': dict(
         engine='svm+model', technique='runtime monitor M-FALL (sequential pc crossing a function boundary) on the SVM + reference interpreter observing fall-off-the-end and dropped statements (M-DIFF)',
         text='Exploration: for every generated function body (all flavours, both return kinds) accepted by hidc, no run on inputs 0..5 (word sizes 2,3; checked and '
-             'unchecked) crossed a function boundary sequentially, reached the end of a value-returning body in the model, or differed from the model.',
+             'unchecked) crossed a function boundary sequentially, reached the end of a value-returning body in the model, or differed from the model. Includes the enumerated loop-exit grid (392 programs) and 56 return-path shapes (open ones must be rejected).',
         note=ISA + '; ' + MODEL, ref='6 (C16)'),
     'C06': dict(
         engine='model', technique='runtime observation of accept/reject of the real parser+typechecker on enumerated placements vs an independent context checker',
